@@ -6,10 +6,11 @@
 //	chunk  input  <id> <hex source>     parsing.ParseChunk
 //	       output <id> <ok|err|gopanic> @@ <tokens> @@ <ast s-expression | line col hexmsg>
 //	       tokens: every token the scanner yields for the source (own scanner
-//	       instance), as  kind[:payload]@line ; payloads: numerals the literal
+//	       instance), as  kind[:payload]@line.column ; payloads: numerals the literal
 //	       text, strings hex of the decoded value, names the text.
 //	       ast: public ast types dumped as s-expressions; NewBinOp's
 //	       same-precedence list merging is undone by a left fold.
+//	file   input <id> <hex source>; output <id> ok - | err <hexmsg>: Runtime.LoadFromSourceOrCode(stripComment=true)
 //	lua    the shared hx.LuaEngine protocol (load + run on a fresh runtime)
 package main
 
@@ -26,6 +27,7 @@ import (
 	"github.com/arnodel/golua/ast"
 	"github.com/arnodel/golua/ops"
 	"github.com/arnodel/golua/parsing"
+	rt "github.com/arnodel/golua/runtime"
 	"github.com/arnodel/golua/scanner"
 	"github.com/arnodel/golua/token"
 )
@@ -63,34 +65,34 @@ func hexs(b []byte) string {
 func tokString(t *token.Token) (s string) {
 	defer func() {
 		if r := recover(); r != nil {
-			s = fmt.Sprintf("panic:%s@%d", hexs([]byte(fmt.Sprint(r))), t.Line)
+			s = fmt.Sprintf("panic:%s@%d.%d", hexs([]byte(fmt.Sprint(r))), t.Line, t.Column)
 		}
 	}()
 	switch t.Type {
 	case token.EOF:
-		return fmt.Sprintf("eof@%d", t.Line)
+		return fmt.Sprintf("eof@%d.%d", t.Line, t.Column)
 	case token.INVALID:
-		return fmt.Sprintf("invalid:%s@%d", hexs(t.Lit), t.Line)
+		return fmt.Sprintf("invalid:%s@%d.%d", hexs(t.Lit), t.Line, t.Column)
 	case token.UNFINISHED:
-		return fmt.Sprintf("unfinished:%s@%d", hexs(t.Lit), t.Line)
+		return fmt.Sprintf("unfinished:%s@%d.%d", hexs(t.Lit), t.Line, t.Column)
 	case token.NUMDEC, token.NUMHEX:
-		return fmt.Sprintf("num:%s@%d", string(t.Lit), t.Line)
+		return fmt.Sprintf("num:%s@%d.%d", string(t.Lit), t.Line, t.Column)
 	case token.IDENT:
-		return fmt.Sprintf("name:%s@%d", string(t.Lit), t.Line)
+		return fmt.Sprintf("name:%s@%d.%d", string(t.Lit), t.Line, t.Column)
 	case token.STRING:
 		v, err := ast.NewString(t)
 		if err != nil {
-			return fmt.Sprintf("strerr:%s@%d", hexs([]byte(err.Error())), t.Line)
+			return fmt.Sprintf("strerr:%s@%d.%d", hexs([]byte(err.Error())), t.Line, t.Column)
 		}
-		return fmt.Sprintf("str:%s@%d", hexs(v.Val), t.Line)
+		return fmt.Sprintf("str:%s@%d.%d", hexs(v.Val), t.Line, t.Column)
 	case token.LONGSTRING:
 		v := ast.NewLongString(t)
-		return fmt.Sprintf("lstr:%s@%d", hexs(v.Val), t.Line)
+		return fmt.Sprintf("lstr:%s@%d.%d", hexs(v.Val), t.Line, t.Column)
 	}
 	if n, ok := tokNames[t.Type]; ok {
-		return fmt.Sprintf("%s@%d", n, t.Line)
+		return fmt.Sprintf("%s@%d.%d", n, t.Line, t.Column)
 	}
-	return fmt.Sprintf("tok%d@%d", int(t.Type), t.Line)
+	return fmt.Sprintf("tok%d@%d.%d", int(t.Type), t.Line, t.Column)
 }
 
 func scanAll(src []byte) string {
@@ -395,6 +397,20 @@ func parseOne(mode string, src []byte) (status, body string) {
 	return "ok", d.sb.String()
 }
 
+func loadAsFile(src []byte) (res string) {
+	defer func() {
+		if r := recover(); r != nil {
+			res = "gopanic " + hexs([]byte(fmt.Sprint(r)))
+		}
+	}()
+	r := rt.New(nil)
+	_, err := r.LoadFromSourceOrCode("chunk", src, "t", rt.TableValue(r.GlobalEnv()), true)
+	if err != nil {
+		return "err " + hexs([]byte(err.Error()))
+	}
+	return "ok -"
+}
+
 func main() {
 	if len(os.Args) < 2 {
 		fmt.Fprintln(os.Stderr, "usage: gvh-front exp|chunk|lua")
@@ -407,6 +423,23 @@ func main() {
 	mode := os.Args[1]
 	if mode == "lua" {
 		hx.LuaEngine(in, out, os.Args[2:])
+		return
+	}
+	if mode == "file" {
+		// what loadfile / dofile / require / the command line do with the bytes of a file:
+		// Runtime.LoadFromSourceOrCode with stripComment = true (first line '#…' skipped)
+		for in.Scan() {
+			f := strings.Fields(in.Text())
+			if len(f) < 1 {
+				continue
+			}
+			var src []byte
+			if len(f) > 1 && f[1] != "-" {
+				src, _ = hex.DecodeString(f[1])
+			}
+			fmt.Fprintf(out, "%s %s\n", f[0], loadAsFile(src))
+			out.Flush()
+		}
 		return
 	}
 	for in.Scan() {
